@@ -355,6 +355,7 @@ func run(c *props.Ctx) {
 		depth = 8
 	}
 	c.R.Bounds["depth"] = depth
+	c.R.Bounds["depth_for_rule_sets_with_BBR_quick"] = depth + 1
 	cfgs := configs(c.Quick())
 	c.R.Bounds["rule_sets"] = len(cfgs)
 	for i, cfg := range cfgs {
@@ -366,7 +367,14 @@ func run(c *props.Ctx) {
 			break
 		}
 		s := &scen{cfg: cfg, ops: mkOps()}
-		res := seq.Explore(s, seq.Options{Depth: depth, Deadline: c.Deadline, Classify: signature, MaxStates: 1500000})
+		d := depth
+		for _, r := range cfg.Rules {
+			if r.BBR && c.Quick() {
+				// the BBR estimate needs a completed slow request plus two in flight: one level deeper
+				d = depth + 1
+			}
+		}
+		res := seq.Explore(s, seq.Options{Depth: d, Deadline: c.Deadline, Classify: signature, MaxStates: 3000000})
 		c.R.States += int64(res.States)
 		c.R.Transitions += res.Transitions
 		c.R.Evaluations += res.Transitions
